@@ -61,6 +61,8 @@ receivers:
 - name: r0
 `
 
+const parkTimeout = time.Hour
+
 type parked struct {
 	key string
 	ch  chan struct{}
@@ -127,7 +129,10 @@ func (h handler) Handle(_ context.Context, r slog.Record) error {
 	}
 	h.g.parked = append(h.g.parked, p)
 	h.g.mu.Unlock()
-	<-p.ch
+	select {
+	case <-p.ch:
+	case <-time.After(parkTimeout): // virtual time: a goroutine nobody releases can never hang the run
+	}
 	return nil
 }
 
@@ -155,12 +160,25 @@ func (w *world) drain() {
 	}
 }
 
+// stopDispatcher: nothing parks any more, everything parked is released, then Stop (which waits for every goroutine
+// of the dispatcher, the initial load included).
+func (w *world) stopDispatcher() {
+	w.g.mu.Lock()
+	was := w.g.enabled
+	w.g.enabled = false
+	w.g.mu.Unlock()
+	w.drain()
+	w.disp.Stop()
+	synctest.Wait()
+	w.g.mu.Lock()
+	w.g.enabled = was
+	w.g.mu.Unlock()
+}
+
 // startDispatcher creates and runs a dispatcher on the provider as it is (a running one is drained and stopped first).
 func (w *world) startDispatcher() {
 	if w.disp != nil {
-		w.drain()
-		w.disp.Stop()
-		synctest.Wait()
+		w.stopDispatcher()
 	}
 	w.g.mu.Lock()
 	w.g.snap = map[string]bool{}
@@ -371,15 +389,9 @@ func runCase(t *testing.T, tr *hx.Trace, id int, r *rand.Rand, script []string, 
 		defer func() {
 			w.g.mu.Lock()
 			w.g.enabled = false
-			ps := w.g.parked
-			w.g.parked = nil
 			w.g.mu.Unlock()
-			for _, p := range ps {
-				close(p.ch)
-			}
-			synctest.Wait()
 			if w.disp != nil {
-				w.disp.Stop()
+				w.stopDispatcher()
 			}
 			w.alerts.Close()
 			cancel()
